@@ -20,6 +20,7 @@ pub struct Case {
 
 #[derive(Debug, Default)]
 pub struct Info {
+    pub deep_fork_seen: bool,
     pub blocks_checked: usize,
     pub fee_txs: usize,
     pub payouts: usize,
@@ -75,7 +76,7 @@ fn regime(b: &saito_core::core::consensus::block::Block) -> &'static str {
     }
 }
 
-pub fn run_case(case: &Case) -> (Vec<(String, String)>, Info) {
+fn run_case_inner(case: &Case) -> (Vec<(String, String)>, Info) {
     let mut info = Info::default();
     let mut v = vec![];
     let built = block_on(build_history(&case.hist));
@@ -93,6 +94,20 @@ pub fn run_case(case: &Case) -> (Vec<(String, String)>, Info) {
             // fork point already purged: this delivery takes add_block's parentless-chain branch (F10)
             info.blocks_checked += 0;
             continue;
+        }
+        // how far below the tip does this block's branch leave the node's chain?
+        {
+            let tip_id = d.node.chain.get_latest_block_id();
+            let mut cur = b.previous_block_hash;
+            while let Some(nb) = d.node.chain.blocks.get(&cur) {
+                if nb.in_longest_chain {
+                    if tip_id.saturating_sub(nb.id) > gp {
+                        info.deep_fork_seen = true;
+                    }
+                    break;
+                }
+                cur = nb.previous_block_hash;
+            }
         }
         let outs = d.deliver(b);
         for o in &outs {
@@ -174,6 +189,21 @@ pub fn run_case(case: &Case) -> (Vec<(String, String)>, Info) {
         }
         if d.dead || !v.is_empty() {
             break;
+        }
+    }
+    (v, info)
+}
+
+pub fn run_case(case: &Case) -> (Vec<(String, String)>, Info) {
+    let (mut v, info) = run_case_inner(case);
+    if info.deep_fork_seen {
+        // finding F42: a branch that leaves the chain more than a genesis period below the tip is
+        // wound without utxo validation (the node takes its supply for 'not loaded' once the unwind
+        // reaches below the purge horizon plus a genesis period) and purging runs while the
+        // candidate chain is still being wound
+        for x in v.iter_mut() {
+            x.1 = format!("{} [{}]", x.1, x.0);
+            x.0 = "C02|after_fork_deeper_than_genesis_period".into();
         }
     }
     (v, info)
